@@ -287,8 +287,8 @@ func actRespond(reqHex string, signer sdk.AccAddress, kind string) Action {
 
 // shortReq renders a request ID as ctx-prefix/batch/height/index.
 func shortReq(reqHex string) string {
-	b := mustHex(reqHex)
-	if len(b) != st.RequestIDLen {
+	b, err := hex.DecodeString(reqHex)
+	if err != nil || len(b) != st.RequestIDLen {
 		return reqHex
 	}
 	_, bc, h, i, _ := st.SplitRequestID(b)
